@@ -111,7 +111,7 @@ func IntervalPtr(duration time.Duration) *Interval {
 func ParsePostgreSQLInterval(s string) (result time.Duration, err error) {
 	// TODO: using a regexp to parse this is simple, but inefficient
 	matches := pgIntervalRegexp.FindStringSubmatch(s)
-	if matches == nil {
+	if matches == nil || s == "" {
 		// try to parse in Go format, happens with sqlite
 		result, err = time.ParseDuration(s)
 		if err != nil {
@@ -129,13 +129,16 @@ func ParsePostgreSQLInterval(s string) (result time.Duration, err error) {
 	if err = adjustDuration(&result, matches[pgIntervalRegexp.SubexpIndex("days")], day); err != nil {
 		return
 	}
-	if err = adjustDuration(&result, matches[pgIntervalRegexp.SubexpIndex("hours")], time.Hour); err != nil {
+	// the time part is optional (PG prints `30 days`), and its sign, if any,
+	// applies to all of hours, minutes, seconds and sub-seconds (`-01:02:03`)
+	var timePart time.Duration
+	if err = adjustDuration(&timePart, matches[pgIntervalRegexp.SubexpIndex("hours")], time.Hour); err != nil {
 		return
 	}
-	if err = adjustDuration(&result, matches[pgIntervalRegexp.SubexpIndex("minutes")], time.Minute); err != nil {
+	if err = adjustDuration(&timePart, matches[pgIntervalRegexp.SubexpIndex("minutes")], time.Minute); err != nil {
 		return
 	}
-	if err = adjustDuration(&result, matches[pgIntervalRegexp.SubexpIndex("seconds")], time.Second); err != nil {
+	if err = adjustDuration(&timePart, matches[pgIntervalRegexp.SubexpIndex("seconds")], time.Second); err != nil {
 		return
 	}
 	// sub-seconds require more logic, as the scale depends on the length
@@ -151,10 +154,14 @@ func ParsePostgreSQLInterval(s string) (result time.Duration, err error) {
 		// int64(math.Pow10(...)) will be exactly correct, and evenly divide
 		// time.Second
 		subsecscale := time.Second / time.Duration(math.Pow10(len(subsecs)))
-		if err = adjustDuration(&result, subsecs, subsecscale); err != nil {
+		if err = adjustDuration(&timePart, subsecs, subsecscale); err != nil {
 			return
 		}
 	}
+	if matches[pgIntervalRegexp.SubexpIndex("sign")] == "-" {
+		timePart = -timePart
+	}
+	result += timePart
 
 	return
 }
@@ -172,10 +179,10 @@ func adjustDuration(d *time.Duration, value string, scale time.Duration) error {
 }
 
 var pgIntervalRegexp = regexp.MustCompile(
-	`^((?P<years>[+-]?\d+) year[s]? )?` +
-		`((?P<months>[+-]?\d+) mon[s]? )?` +
-		`((?P<days>[+-]?\d+) day[s]? )?` +
-		`(?P<hours>[+-]?\d+):(?P<minutes>[+-]?\d+):(?P<seconds>[+-]?\d+)(\.(?P<subseconds>\d+))?$`,
+	`^((?P<years>[+-]?\d+) year[s]? ?)?` +
+		`((?P<months>[+-]?\d+) mon[s]? ?)?` +
+		`((?P<days>[+-]?\d+) day[s]? ?)?` +
+		`((?P<sign>[+-]?)(?P<hours>\d+):(?P<minutes>[+-]?\d+):(?P<seconds>[+-]?\d+)(\.(?P<subseconds>\d+))?)?$`,
 )
 
 // FIXME: PG understands that years, months, and days are relative to some
